@@ -194,7 +194,7 @@ def build(spec):
 def obligations(tier, seed):
     out = []
     q = tier == "quick"
-    und = [("n4q", 3, False)] if q else [("n4", 3, True), ("n5", 5, False), ("str", 2, False)]
+    und = [("n4q", 3, False)] if q else [("n4", 3, True), ("str", 2, False)]
     k = 0
     for cname, nfix, rev in und:
         for fixed in itertools.product([0, 1], repeat=nfix):
@@ -206,7 +206,7 @@ def obligations(tier, seed):
                 k += 1
                 out.append({"family": "line", "cands": cname, "fixed": list(fixed), "what": "line", "distance": dist,
                             "reverse": rev, "build": ("remove", "add", "readd")[k % 3], "rewire": k % 2 == 1})
-    for cname, nfix in ([("n4q", 3)] if q else [("n4", 4), ("n5", 6)]):
+    for cname, nfix in ([("n4q", 3)] if q else [("n4q", 3), ("n4", 4)]):
         for fixed in itertools.product([0, 1], repeat=nfix):
             for dist in ("intersection", "jaccard"):
                 k += 1
@@ -229,8 +229,7 @@ META = {
                  "ids with gaps -, or with a remove/re-insert, rotating over obligations) Hypergraph on 4 nodes + isolated node: every sub-family of 8 candidates of sizes 1-4; threshold s an "
                  "unbounded symbolic integer >= 1 (intersection) or symbolic real in (0,1] (Jaccard); weighted and "
                  "keep_isolated symbolic Booleans; DirectedHypergraph: every sub-family of 9 candidates",
-        "thorough": "10 (undirected) / 12 (directed) candidates on 4 nodes, reversed insertion/listing order, a 12-candidate family on 5 nodes with sizes 1-5, string labels, a "
-                    "14-candidate directed family",
+        "thorough": "10 (undirected) / 12 (directed) candidates on 4 nodes, reversed insertion/listing order, string labels",
     },
     "stand_ins": [],
     "outside_claim": ["networkx internals (run for real, concretely keyed)", "the empty face of the simplicial complex"],
